@@ -295,7 +295,7 @@ func (e *eval) scalar(lit, kind string, rr []model.Rule, depth int, own string) 
 				if alt.K == "str" {
 					ok, why = e.typeOK(alt.Str, lit, kind, str, depth+1)
 				} else {
-					ok, _, why = e.scalar(lit, kind, alt.Rules, depth+1, lit)
+					ok, _, why = e.scalar(lit, kind, alt.Rules, depth+1, own) // (a `const` in the rule-set pins the value to the example the `or` rule is written next to)
 				}
 				if ok {
 					sat = true
